@@ -646,6 +646,7 @@ type vfGridOpts struct {
 	OnlySuccess bool
 	Label       string
 	Note        string // appended to the description of the case in messages
+	SCfgMod     func(*Config) // edits the server config built from the choice (compliant server behaviours)
 }
 
 // vfGridRun executes one grid case. It returns the finished pair when both handshakes succeeded and the
@@ -697,6 +698,9 @@ func vfGridRun(rt *rapid.T, st *vfStats, prop string, o vfGridOpts) *vfGridResul
 			names = append(names, vfCertNames(n)...)
 		}
 		scfg = vfServerConfigFor(choice, names...)
+		if o.SCfgMod != nil {
+			o.SCfgMod(scfg)
+		}
 	}
 	pair := &vfPair{CP: p.CP, SP: p.SP, Cli: p.UC, Srv: Server(p.SP, scfg)}
 	if !o.KeepOpen {
@@ -902,4 +906,29 @@ func vfGenCfgKnobs(rt *rapid.T, label string) (func(*Config), string) {
 			f(c)
 		}
 	}, "config knobs:" + desc
+}
+
+// vfGenSrvKnobs draws behaviours a compliant server is free to show and that must not change the outcome of the
+// negotiation: asking for a client certificate (the client answers with an empty Certificate), not issuing tickets.
+func vfGenSrvKnobs(rt *rapid.T, label string) (func(*Config), string) {
+	reqCert := rapid.IntRange(0, 2).Draw(rt, label+"_request_client_cert") == 0
+	noTickets := rapid.IntRange(0, 3).Draw(rt, label+"_no_tickets") == 0
+	if !reqCert && !noTickets {
+		return nil, ""
+	}
+	desc := "server knobs:"
+	if reqCert {
+		desc += " RequestClientCert"
+	}
+	if noTickets {
+		desc += " SessionTicketsDisabled"
+	}
+	return func(c *Config) {
+		if reqCert {
+			c.ClientAuth = RequestClientCert
+		}
+		if noTickets {
+			c.SessionTicketsDisabled = true
+		}
+	}, desc
 }
